@@ -34,6 +34,9 @@ def build_paths(spec):
     paths = []
     idx = 0
     for kinds in spec:
+        if kinds == 'empty':
+            paths.append(Path())
+            continue
         if kinds == 'dup0':
             # the same path data a second time (e.g. an outline drawn twice with different strokes)
             paths.append(Path(*list(paths[0])))
@@ -58,13 +61,13 @@ attrs = %r; svg_attrs = %r; writer = %r; reader = %r
 fd, fn = tempfile.mkstemp(suffix='.svg'); os.close(fd)
 try:
     if writer == 'wsvg':
-        wsvg(paths, attributes=attrs[:len(paths)], svg_attributes=dict(svg_attrs), viewbox='0 0 30 20', filename=fn)
+        wsvg(paths, attributes=[attrs[i % len(attrs)] for i in range(len(paths))], svg_attributes=dict(svg_attrs), viewbox='0 0 30 20', filename=fn)
     elif writer == 'Document':
         doc = Document()
-        for p, a in zip(paths, attrs): doc.add_path(p, a)
+        for i, p in enumerate(paths): doc.add_path(p, attrs[i % len(attrs)])
         doc.save(fn)
     else:
-        wsvg(paths, attributes=attrs[:len(paths)], svg_attributes=dict(svg_attrs), viewbox='0 0 30 20', filename=fn)
+        wsvg(paths, attributes=[attrs[i % len(attrs)] for i in range(len(paths))], svg_attributes=dict(svg_attrs), viewbox='0 0 30 20', filename=fn)
         sd = SaxDocument(fn); sd.save(fn)
     got_attrs = None; got_svg = None
     if reader == 'svg2paths2': out, got_attrs, got_svg = svg2paths2(fn)
@@ -109,7 +112,7 @@ def fam_roundtrip(R, writer, reader, spec, svgset='full'):
     def run():
         TOK.reset()
         paths = build_paths(spec)
-        attrs = [dict(a) for a in ATTRS[:len(paths)]]
+        attrs = [dict(ATTRS[i % len(ATTRS)]) for i in range(len(paths))]
         fd, fn = tempfile.mkstemp(suffix='.svg')
         os.close(fd)
         try:
@@ -272,6 +275,8 @@ def families(tier):
     for reader in ('svg2paths2', 'Document', 'SaxDocument'):
         fams.append(('wsvg-%s-overlapping-attribute-names' % reader, M, 'fam_roundtrip', {'writer': 'wsvg', 'reader': reader, 'spec': [('L',), ('Q',)], 'svgset': 'overlap'}))
         fams.append(('wsvg-%s-duplicate-path-data' % reader, M, 'fam_roundtrip', {'writer': 'wsvg', 'reader': reader, 'spec': [('C', 'L'), 'dup0']}))
+    # an empty Path between two others (Document writes d=""; wsvg refuses an empty path loudly, which is outside this family)
+    fams.append(('Document-svg2paths2-empty-path', M, 'fam_roundtrip', {'writer': 'Document', 'reader': 'svg2paths2', 'spec': [('L',), 'empty', ('Q',)]}))
     for ss in ('width-only', 'height-only'):
         fams.append(('wsvg-svg2paths2-svgattrs-%s' % ss, M, 'fam_roundtrip', {'writer': 'wsvg', 'reader': 'svg2paths2', 'spec': [('L',)], 'svgset': ss}))
     for loaded in (False, True):
